@@ -169,7 +169,7 @@ def install(ex):
 
 PROFILE = {
     'weights': {'open': 3, 'poll': 0, 'app_send': 5, 'advance': 8, 'pong': 2, 'vanish': 1,
-                'probe_step': 3, 'post': 3, 'ws_send': 2},
+                'probe_step': 3, 'post': 3, 'ws_send': 2, 'fault': 1},   # (handler exceptions)
     # other client traffic (MESSAGE packets only): it neither replaces a PONG nor harms a live peer
     'packet_kinds': [('msg', 1)],
     'post_modes': [('pkts', 1)],
